@@ -83,6 +83,7 @@ type VStmt struct {
 	Q    *VQ       `json:"q,omitempty"`
 	Text string    `json:"text"`
 	Note string    `json:"note,omitempty"`
+	Hav  string    `json:"having,omitempty"`
 	Obs  *Observed `json:"obs,omitempty"`
 }
 type Observed struct {
@@ -565,8 +566,13 @@ func (g *Gen) Stmt() VStmt {
 		if !add {
 			kw, into = "DECONSTRUCT", "IN"
 		}
-		text := fmt.Sprintf("%s { %s } %s %s FROM %s WHERE { %s };", kw, tt, into, strings.Join(outs, ", "), strings.Join(ins, ", "), pat.text)
-		return VStmt{Kind: "construct", Add: add, Tmpl: tm, Outs: outs, Ins: ins, WB: pat.wb, Text: text, Note: pat.text}
+		having := ""
+		if has(pat.wb, "?s") && has(pat.wb, "?o") && g.R.Intn(7) == 0 {
+			// HAVING filters the solution rows before the template is instantiated
+			having = " HAVING " + g.pick([]string{"?s = ?o", "?s < ?o", "?o > ?s", "(?s < ?o) OR (?s = ?o)", `?o = "1"^^type:int64`})
+		}
+		text := fmt.Sprintf("%s { %s } %s %s FROM %s WHERE { %s }%s;", kw, tt, into, strings.Join(outs, ", "), strings.Join(ins, ", "), pat.text, having)
+		return VStmt{Kind: "construct", Add: add, Tmpl: tm, Outs: outs, Ins: ins, WB: pat.wb, Text: text, Note: pat.text, Hav: having}
 	case k < 93:
 		pat := patterns[g.R.Intn(len(patterns))]
 		ins := g.graphList(true)
@@ -587,7 +593,12 @@ func (g *Gen) Stmt() VStmt {
 
 // rows of the WHERE pattern over the input graphs, obtained from the real query engine
 func (g *Gen) Query(ctx context.Context, st storage.Store, ins []string, wb []string, pat string) *VQ {
-	text := fmt.Sprintf("SELECT %s FROM %s WHERE { %s };", strings.Join(wb, ", "), strings.Join(ins, ", "), pat)
+	return g.QueryHaving(ctx, st, ins, wb, pat, "")
+}
+
+// QueryHaving: the same with the HAVING clause of the statement (it filters the solution rows in both)
+func (g *Gen) QueryHaving(ctx context.Context, st storage.Store, ins []string, wb []string, pat, having string) *VQ {
+	text := fmt.Sprintf("SELECT %s FROM %s WHERE { %s }%s;", strings.Join(wb, ", "), strings.Join(ins, ", "), pat, having)
 	r := Execute(ctx, st, text, 100)
 	if r.Class != "ok" {
 		return &VQ{Ok: false}
